@@ -101,6 +101,14 @@ type End struct {
 	Stalled   chan struct{}
 	CloseN    int
 	ReadCalls int
+	waiting   bool
+}
+
+func (e *End) unwaitLocked() {
+	if e.waiting {
+		e.waiting = false
+		e.w.blocked--
+	}
 }
 
 // Pipe creates a connected pair (a,b). Addresses are those seen by a: a.local,
@@ -162,12 +170,16 @@ func (e *End) Read(p []byte) (int, error) {
 			}
 			return 0, io.EOF
 		}
+		// The reader is counted as blocked until whoever makes progress possible
+		// (a write, a close) un-counts it; it must not stay counted while it is
+		// merely waiting to be scheduled after a wake-up.
+		e.waiting = true
 		w.blocked++
 		w.checkStuckLocked()
 		if !w.stuck {
 			w.cond.Wait()
 		}
-		w.blocked--
+		e.unwaitLocked()
 	}
 	n := copy(p, e.q)
 	e.q = e.q[n:]
@@ -210,6 +222,9 @@ func (e *End) Write(p []byte) (int, error) {
 		}
 		e.peer.q = append(e.peer.q, b...)
 	}
+	if len(e.peer.q) > 0 {
+		e.peer.unwaitLocked()
+	}
 	w.cond.Broadcast()
 	w.mu.Unlock()
 	return len(p), nil
@@ -219,6 +234,7 @@ func (e *End) Write(p []byte) (int, error) {
 func (e *End) Inject(p []byte) {
 	e.w.mu.Lock()
 	e.peer.q = append(e.peer.q, p...)
+	e.peer.unwaitLocked()
 	e.w.cond.Broadcast()
 	e.w.mu.Unlock()
 }
@@ -231,6 +247,8 @@ func (e *End) Close() error {
 		e.closed = true
 		e.peer.rclosed = true
 	}
+	e.unwaitLocked()
+	e.peer.unwaitLocked()
 	w.cond.Broadcast()
 	w.mu.Unlock()
 	return nil
@@ -240,6 +258,7 @@ func (e *End) Close() error {
 func (e *End) CloseWrite() {
 	e.w.mu.Lock()
 	e.peer.rclosed = true
+	e.peer.unwaitLocked()
 	e.w.cond.Broadcast()
 	e.w.mu.Unlock()
 }
